@@ -170,6 +170,10 @@ fn main() {
                 let ks: Vec<u32> = if np <= 10 { (0..np).collect() } else { (0..10).map(|_| r.below(np as u64) as u32).collect() };
                 for k in ks {
                     runs.push(run_seq(&c.u, &[(c.p.clone(), vec![k]), (c.p.clone(), vec![])], Mode::Sync, Policy::Fifo, "sync-cancel-resolve"));
+                    // ... and a DIFFERENT problem after the cancellation: what the cancelled solve left in the cache must not
+                    // make the next solve fetch more than it needs
+                    let v = variant_prob(&mut r, &c.u, &c.p, feat);
+                    runs.push(run_seq(&c.u, &[(c.p.clone(), vec![k]), (v, vec![])], Mode::Sync, Policy::Fifo, "sync-cancel-variant"));
                 }
                 let np = count_polls(&c.u, &c.p, Mode::YieldOnce, Policy::Fifo).min(6);
                 for k in 0..np {
